@@ -587,6 +587,7 @@ def drv_misuse(doc, args, inst):
         'fast_matvec_kinds': lambda: r([(2, 2), (3, 3)]).fast_matvec(r([(2, 2), (3, 3)])),
         'to_qtt_not_power': lambda: r([(6, 6), (4, 4)]).to_qtt(),
         'to_qtt_ttm_rect': lambda: r([(2, 4)]).to_qtt(),
+        'to_qtt_tensor_not_power': lambda: r([3, 2]).to_qtt(),
         'ctor_bad_source': lambda: TT(3.5),
         'kron_kinds': lambda: tt.kron(r([2, 3]), r([(2, 2)])),
         'kron_bad': lambda: tt.kron(r([2, 3]), 3),
